@@ -1136,8 +1136,11 @@ def _merge_steps(k: Kernel, fn: ast.FunctionDef) -> str:
             f"def mergeSectionKeys : List (List Nat) := [" + ", ".join(cps(x) for x in sections) + "]\n")
 
 
+# when the function can no longer be read, the companion tables of the kernel must exist as well (the model's own values)
 _MERGE_FALLBACK = ("([(1, 1), (2, 0), (3, 0), (4, 0), (5, 0), (6, 0), (7, 0), (8, 0), (9, 0), (10, 1), (11, 2), (12, 4), (13, 3), "
-                   "(14, 1), (15, 0), (16, 0), (17, 0)] : List (Nat × Nat))")
+                   "(14, 1), (15, 0), (16, 0), (17, 0)] : List (Nat × Nat))\n"
+                   "def mergeSkippedKeys : List (List Nat) := [" + ", ".join(cps(x) for x in ("models", "additional_models")) + "]\n"
+                   "def mergeSectionKeys : List (List Nat) := [" + ", ".join(cps(x) for x in ("training", "validation", "inference")) + "]\n")
 
 
 def _dict_flatten_shape(k: Kernel, fn: ast.FunctionDef) -> str:
